@@ -210,7 +210,8 @@ class NMAP(Application, discriminator="nmap"):
             table.align = "l"
             table.title = f"{self.software_manager.node.config.hostname} NMAP Ping Scan"
 
-        ip_addresses = self._explode_ip_address_network_array(target_ip_address)
+        # scan in address order: the order of a set of addresses depends on the interpreter's hash seed
+        ip_addresses = sorted(self._explode_ip_address_network_array(target_ip_address))
 
         for ip_address in ip_addresses:
             # Prevent ping scan on this node
@@ -350,7 +351,8 @@ class NMAP(Application, discriminator="nmap"):
         :return: A dictionary mapping IP addresses to protocols and lists of open ports.
         :rtype: Dict[IPv4Address, Dict[IPProtocol, List[Port]]]
         """
-        ip_addresses = self._explode_ip_address_network_array(target_ip_address)
+        # scan in address order: the order of a set of addresses depends on the interpreter's hash seed
+        ip_addresses = sorted(self._explode_ip_address_network_array(target_ip_address))
 
         if is_valid_port(target_port):
             target_port = [target_port]
